@@ -132,6 +132,17 @@ func floatFixSweep[S constraints.Float, D constraints.Integer](w *numWriter, rng
 		}
 		w.emit(&NEvent{Op: "P", F: floatJ(float64(p.x)), Y: numOfInt(p.y)})
 	}
+	// parallel with the other instantiations: a block of 1100 samples converted 120 times
+	w.start(&NEvent{Fam: "floatfix", Fn: fn, STy: sty, DTy: dty, Sd: floatBits[S](), Ds: b2i(isSigned[D]()), Dd: bitsOf[D](), Uo: 1})
+	blk := make([]S, 1100)
+	for i := range blk {
+		blk[i] = xs[rng.Intn(len(xs))]
+	}
+	repeatDistinct(conv, blk, 120, func(x S, y D) {
+		if x == x {
+			w.emit(&NEvent{Op: "P", F: floatJ(float64(x)), Y: numOfInt(y)})
+		}
+	})
 }
 
 // floatFixChained: the source of the float -> fixed conversion is the very buffer object a fixed -> float conversion
@@ -225,6 +236,16 @@ func fixFloatSweep[S constraints.Integer, D constraints.Float](w *numWriter, rng
 			continue
 		}
 		w.emit(&NEvent{Op: "P", X: numOfInt(q.x), G: floatJ(float64(q.y))})
+	}
+	// all instantiations of the family run in parallel goroutines: a block of 1100 samples converted 120 times while
+	// the other formats are being converted next door (shared scratch or memoised constants would be torn)
+	w.start(&NEvent{Fam: "fixfloat", Fn: fn, STy: sty, DTy: dty, Ss: b2i(isSigned[S]()), Sd: sd, Dd: floatBits[D](), P: p, Uo: 1})
+	{
+		blk := make([]S, 1100)
+		for i := range blk {
+			blk[i] = xs[rng.Intn(len(xs))]
+		}
+		repeatDistinct(conv, blk, 120, func(x S, y D) { w.emit(&NEvent{Op: "P", X: numOfInt(x), G: floatJ(float64(y))}) })
 	}
 	if exhaustive16 && sd == 32 && p == 53 { // thorough tier (through float64; float32 cannot hold 32-bit codes and nothing is claimed): the round trip of EVERY 32-bit code, as runs of constant z - x
 		fixFloatRoundTrips32(w, conv, back)
